@@ -64,7 +64,7 @@ func handleExtensionsInits(p *Params) gqlerrors.FormattedErrors {
 			// catch panic from an extension init fn
 			defer func() {
 				if r := recover(); r != nil {
-					errs = append(errs, gqlerrors.FormatError(fmt.Errorf("%s.Init: %v", ext.Name(), r.(error))))
+					errs = append(errs, gqlerrors.FormatError(fmt.Errorf("%s.Init: %v", ext.Name(), r)))
 				}
 			}()
 			// update context
@@ -87,7 +87,7 @@ func handleExtensionsParseDidStart(p *Params) ([]gqlerrors.FormattedError, parse
 		func() {
 			defer func() {
 				if r := recover(); r != nil {
-					errs = append(errs, gqlerrors.FormatError(fmt.Errorf("%s.ParseDidStart: %v", ext.Name(), r.(error))))
+					errs = append(errs, gqlerrors.FormatError(fmt.Errorf("%s.ParseDidStart: %v", ext.Name(), r)))
 				}
 			}()
 			ctx, finishFn = ext.ParseDidStart(p.Context)
@@ -103,7 +103,7 @@ func handleExtensionsParseDidStart(p *Params) ([]gqlerrors.FormattedError, parse
 				// catch panic from a finishFn
 				defer func() {
 					if r := recover(); r != nil {
-						errs = append(errs, gqlerrors.FormatError(fmt.Errorf("%s.ParseFinishFunc: %v", name, r.(error))))
+						errs = append(errs, gqlerrors.FormatError(fmt.Errorf("%s.ParseFinishFunc: %v", name, r)))
 					}
 				}()
 				fn(err)
@@ -126,7 +126,7 @@ func handleExtensionsValidationDidStart(p *Params) ([]gqlerrors.FormattedError, 
 		func() {
 			defer func() {
 				if r := recover(); r != nil {
-					errs = append(errs, gqlerrors.FormatError(fmt.Errorf("%s.ValidationDidStart: %v", ext.Name(), r.(error))))
+					errs = append(errs, gqlerrors.FormatError(fmt.Errorf("%s.ValidationDidStart: %v", ext.Name(), r)))
 				}
 			}()
 			ctx, finishFn = ext.ValidationDidStart(p.Context)
@@ -142,7 +142,7 @@ func handleExtensionsValidationDidStart(p *Params) ([]gqlerrors.FormattedError, 
 				// catch panic from a finishFn
 				defer func() {
 					if r := recover(); r != nil {
-						extErrs = append(extErrs, gqlerrors.FormatError(fmt.Errorf("%s.ValidationFinishFunc: %v", name, r.(error))))
+						extErrs = append(extErrs, gqlerrors.FormatError(fmt.Errorf("%s.ValidationFinishFunc: %v", name, r)))
 					}
 				}()
 				finishFn(errs)
@@ -165,7 +165,7 @@ func handleExtensionsExecutionDidStart(p *ExecuteParams) ([]gqlerrors.FormattedE
 		func() {
 			defer func() {
 				if r := recover(); r != nil {
-					errs = append(errs, gqlerrors.FormatError(fmt.Errorf("%s.ExecutionDidStart: %v", ext.Name(), r.(error))))
+					errs = append(errs, gqlerrors.FormatError(fmt.Errorf("%s.ExecutionDidStart: %v", ext.Name(), r)))
 				}
 			}()
 			ctx, finishFn = ext.ExecutionDidStart(p.Context)
@@ -181,7 +181,7 @@ func handleExtensionsExecutionDidStart(p *ExecuteParams) ([]gqlerrors.FormattedE
 				// catch panic from a finishFn
 				defer func() {
 					if r := recover(); r != nil {
-						extErrs = append(extErrs, gqlerrors.FormatError(fmt.Errorf("%s.ExecutionFinishFunc: %v", name, r.(error))))
+						extErrs = append(extErrs, gqlerrors.FormatError(fmt.Errorf("%s.ExecutionFinishFunc: %v", name, r)))
 					}
 				}()
 				finishFn(result)
@@ -204,7 +204,7 @@ func handleExtensionsResolveFieldDidStart(exts []Extension, p *executionContext,
 		func() {
 			defer func() {
 				if r := recover(); r != nil {
-					errs = append(errs, gqlerrors.FormatError(fmt.Errorf("%s.ResolveFieldDidStart: %v", ext.Name(), r.(error))))
+					errs = append(errs, gqlerrors.FormatError(fmt.Errorf("%s.ResolveFieldDidStart: %v", ext.Name(), r)))
 				}
 			}()
 			ctx, finishFn = ext.ResolveFieldDidStart(p.Context, i)
@@ -220,7 +220,7 @@ func handleExtensionsResolveFieldDidStart(exts []Extension, p *executionContext,
 				// catch panic from a finishFn
 				defer func() {
 					if r := recover(); r != nil {
-						extErrs = append(extErrs, gqlerrors.FormatError(fmt.Errorf("%s.ResolveFieldFinishFunc: %v", name, r.(error))))
+						extErrs = append(extErrs, gqlerrors.FormatError(fmt.Errorf("%s.ResolveFieldFinishFunc: %v", name, r)))
 					}
 				}()
 				finishFn(val, err)
@@ -236,7 +236,7 @@ func addExtensionResults(p *ExecuteParams, result *Result) {
 			func() {
 				defer func() {
 					if r := recover(); r != nil {
-						result.Errors = append(result.Errors, gqlerrors.FormatError(fmt.Errorf("%s.GetResult: %v", ext.Name(), r.(error))))
+						result.Errors = append(result.Errors, gqlerrors.FormatError(fmt.Errorf("%s.GetResult: %v", ext.Name(), r)))
 					}
 				}()
 				if ext.HasResult() {
